@@ -125,6 +125,32 @@ def random_items(ctx, n, pools=False):
                 adds = [(b"a", vg.val(100)), (b"b", vg.val(bound - 120 + d))]
                 items.append({"name": "cap%d_%d_%d" % (bound // 1024, ri, d + 50), "cfg": gen.writer_cfg(comp="none", bs=1 << 20, ri=ri), "adds": adds,
                               "origin": "random", "klass": "capacity", "poolsize": -1, "verify": 1, "madv": 0})
+        # the block-closing rule at its threshold: a first block of m entries (m a multiple of the restart interval, and not), then a
+        # probe entry whose value length sweeps the few bytes around "finished size + 15 + key + value reaches the block size"
+        def _fin(keys, vals, ri):
+            tot, prev, nres = 0, b"", 0
+            for i, (k, v) in enumerate(zip(keys, vals)):
+                if i % ri == 0:
+                    sh = 0
+                    nres += 1
+                else:
+                    sh = 0
+                    while sh < min(len(prev), len(k)) and prev[sh] == k[sh]:
+                        sh += 1
+                tot += 3 + (len(k) - sh) + v          # lengths below 128: one byte each
+                prev = k
+            return tot + 4 * max(1, nres) + 4
+        for (ri, m) in ((1, 10), (2, 10), (16, 16), (4, 8), (16, 12), (8, 16)) if not ctx.quick() else ((1, 10), (16, 16), (4, 8)):
+            keys = [b"c%02d" % i for i in range(m)]
+            vl = 40 if m > 12 else 50
+            thr = 1024 - 15 - 3 - _fin(keys, [vl] * m, ri)
+            if not (10 < thr < 16000):
+                continue
+            for d in range(-7, 4):
+                vg = gen.VGen(970000 + 100 * ri + m)
+                adds = [(k, vg.val(vl)) for k in keys] + [(b"d00", vg.val(thr + d)), (b"d01", vg.val(5))]
+                items.append({"name": "cut%d_%d_%d" % (ri, m, d + 10), "cfg": gen.writer_cfg(comp="none", bs=1024, ri=ri), "adds": adds,
+                              "origin": "random", "klass": "cutsweep", "poolsize": -1, "verify": 1, "madv": 0})
         # many blocks through a pool of several real threads, every compression type (blocks are compressed on the workers:
         # several compressions of one kind run at the same time)
         reps = 2 if ctx.quick() else 12
